@@ -101,7 +101,8 @@ def gen(rng, tier):
         lines.append([h, t, rng.getrandbits(16)])
     if not any(l[0] == "S" for l in lines):
         lines[0][0] = "S"
-    return {"kind": "ebnf", "lines": lines, "via_regex": rng.chance(0.2)}
+    start = "S" if rng.chance(0.75) else rng.pick(sorted({l[0] for l in lines}))
+    return {"kind": "ebnf", "lines": lines, "via_regex": rng.chance(0.2), "start": start}
 
 
 def shrink(case):
@@ -348,7 +349,12 @@ def _run_ebnf(case, out):
         out.probe("from_regex")
     else:
         ebnf = "\n".join(texts) + "\n"
-        rsa = out.call("from_ebnf", RecursiveAutomaton.from_ebnf, ebnf)
+        start = case.get("start", "S")
+        if start == "S":
+            rsa = out.call("from_ebnf", RecursiveAutomaton.from_ebnf, ebnf)
+        else:
+            out.probe("start_nonterminal_is_not_S")
+            rsa = out.call("from_ebnf", RecursiveAutomaton.from_ebnf, ebnf, start)
         if rsa is FAILED:
             return
         want = by_head
@@ -376,8 +382,9 @@ def _run_ebnf(case, out):
                      text=[x for x in texts if x.startswith(h + " ")][:3])
     sb = out.call("start_box", lambda: rsa.start_box)
     if sb is not FAILED and sb is not None:
-        if str(sb.nonterminal.value) != "S":
-            out.fail("rsa:start-box", got=str(sb.nonterminal.value))
+        want_start = "S" if case.get("via_regex") else case.get("start", "S")
+        if str(sb.nonterminal.value) != want_start:
+            out.fail("rsa:start-box", got=str(sb.nonterminal.value), want=want_start)
 
 
 def run(case, out):
